@@ -164,6 +164,18 @@ static void run_program(Rng& r) {
       const uint32_t active_before = sk[l]->get_num_active_items();
       if (r.coin()) sk[l]->update(it, w); else { T tmp = it; sk[l]->update(std::move(tmp), w); }
       md[l].add(it, w);
+      if ((std::is_signed<W>::value || std::is_floating_point<W>::value) && r.chance(0.01)) {
+        // invalid weights are refused through both overloads and leave the sketch exactly as it was (checked by the next observe)
+        T key = ItemGen<T>::make(x);
+        std::vector<W> bad; bad.push_back(W(-1)); bad.push_back(W(-1000000));
+        if (std::is_floating_point<W>::value) { bad.push_back(W(std::numeric_limits<double>::quiet_NaN())); bad.push_back(W(std::numeric_limits<double>::infinity())); bad.push_back(W(-2.5)); }
+        for (W bw : bad) {
+          VF_CHECK(throws([&] { sk[l]->update(key, bw); }), K + "invalid-weight-accepted|lvalue", G().cur_desc + " w=" + str(bw));
+          T tmp = key; VF_CHECK(throws([&] { sk[l]->update(std::move(tmp), bw); }), K + "invalid-weight-accepted|rvalue", G().cur_desc + " w=" + str(bw));
+        }
+        count("rejected_weight_updates");
+        observe(*sk[l], md[l], universe, r, "rejected weights", K);
+      }
       const uint32_t active_after = sk[l]->get_num_active_items();
       if (active_after < active_before) { count("purges"); if (active_after == 0) count("purge_removed_every_counter"); }
       if (nupd < 60 || i % (nupd / 3 + 1) == 0) observe(*sk[l], md[l], universe, r, "update batch", K);
